@@ -228,6 +228,7 @@ def schema2(reg):
     f("$needs_pull", Bool)
     f("$units", TOpt(TObj("units")))
     f("$itime", TimeOpt)
+    f("$grid", TOpt(TObj("grid")))
 
 
 def install2(ex):
